@@ -482,6 +482,16 @@ class Inputs:
     def parse_value(cls, itype: str, value: str | None) -> tuple[float, ...] | None:
         """Parse the input value."""
 
+        try:
+            return cls._parse_value(itype, value)
+        except ValueError:
+            # `int()` refuses digit strings beyond the interpreter's conversion limit: not a valid value.
+            return None
+
+    @classmethod
+    def _parse_value(cls, itype: str, value: str | None) -> tuple[float, ...] | None:
+        """Parse the input value."""
+
         parsed = None  # type: tuple[float, ...] | None
         if value is None:
             return value
